@@ -117,6 +117,11 @@ def evaluate(case, res, mon, sched_name):
                         "[%s] failed=%s outcomes=%s" % (sched_name, failed, res.stage_outcomes))
     bad = {r: (res.states[r], expected[r]) for r in in_run_stages
            if res.states[r] not in (expected[r], SHUTDOWN)}
+    if bad and all(_is_observer_of_shutdown_subject(r, nodes, preds, expected) and v == (FINISHED, SHUTDOWN)
+                   for r, v in bad.items()):
+        raise Violation("observer-of-shutdown-subject-finishes",
+                        "[%s] repeating component(s) %s end 'finished' although a same-stage producer ended shut down; "
+                        "script %s" % (sched_name, sorted(bad), script))
     if bad:
         raise Violation("state-outside-rules-after-failure",
                         "[%s] (actual, expected) %s; script %s" % (sched_name, bad, script))
